@@ -24,7 +24,7 @@ func (c15) ID() string { return "C15" }
 func (c15) Info() core.Info {
 	return core.Info{
 		Level: "exploration",
-		Rule: "seeded scripts from the workload grammar (statements known to the generator, some spread over several lines, comments, macros defined before use, no top-level return). " +
+		Rule: "seeded scripts from the workload grammar (statements known to the generator, some spread over several lines, comments, macros defined before use, statements starting with a string literal, parameterless lambdas inside open brackets, no top-level return). " +
 			"(a) the complete text is parsed with lexer.New and lexer.NewLineMode: identical trees (harness' own structural dump). " +
 			"(b) the text is cut at EVERY token boundary (boundaries from the real lexer) plus positions inside string and block-comment tokens; each prefix is parsed in line mode: when the cut lies inside an unclosed ( [ {, string or block comment, or right after a binary operator, the parser must ask for continuation and report no error; " +
 			"feeding the text line by line through the REPL's prev+line accumulation must yield the same statements as whole-file parsing. " +
@@ -40,7 +40,7 @@ func (c15) Budget(tier string) core.Budget {
 	if tier == "thorough" {
 		return core.Budget{Runs: 200000, WallCap: 20 * time.Minute}
 	}
-	return core.Budget{Runs: 2500, WallCap: 45 * time.Second}
+	return core.Budget{Runs: 4000, WallCap: 60 * time.Second}
 }
 
 // spread turns a one-line statement into several lines at safe places (after { and ;).
